@@ -104,6 +104,13 @@ func spkUniverseFor(prop string, thorough bool) *spkUniverse {
 			{"lb-poolc", v1.ServiceTypeLoadBalancer, false, []string{"10.0.3.7"}},
 			// dual-stack with the IPv6 address listed first (the per-family aggregation lengths must not depend on the order)
 			{"lb-a6+a", v1.ServiceTypeLoadBalancer, false, []string{"fc00:1::1", "10.0.1.1"}}}
+		// two peers on one address (another port), as two routers behind one virtual address or two VRFs: sessions are per peer
+		p1b := *p1.DeepCopy()
+		p1b.Name = "p1b"
+		p1b.Spec.Port = 1179
+		u.Configs = append(u.Configs,
+			spkConfig{Name: "bgp-a-two-peers-on-one-address", Pools: []metallbv1beta1.IPAddressPool{poolA, poolB}, BGPAdvs: []metallbv1beta1.BGPAdvertisement{advA}, Peers: []metallbv1beta2.BGPPeer{p1, p1b, p2}},
+			spkConfig{Name: "bgp-e-two-peers-on-one-address", Pools: []metallbv1beta1.IPAddressPool{poolA, poolB}, BGPAdvs: []metallbv1beta1.BGPAdvertisement{advE}, Peers: []metallbv1beta2.BGPPeer{p1, p1b, p2}})
 		u.Svcs = []string{"s1", "s2", "s3", "s4"}
 		u.SvcVarsFor = map[int][]int{2: {1, 6}, 3: {1, 7}}
 		u.Configs = append(u.Configs, spkConfig{Name: "bgp-pool-a-only+pool-b-unadvertised", Pools: []metallbv1beta1.IPAddressPool{poolA, poolB}, BGPAdvs: []metallbv1beta1.BGPAdvertisement{advB}, Peers: peers})
